@@ -5,6 +5,7 @@ package verifsvc
 import (
 	"fmt"
 	"sort"
+	"strings"
 	"testing"
 	"time"
 
@@ -124,7 +125,7 @@ func TestVerifC09(t *testing.T) {
 	r0 := verifh.Rand("c09data", 0)
 	// skewed: most rows early, a few late, so some cursors run dry long before others
 	rows := genDataset(r0, verifh.Pick(260, 1200), 6, 3, base, &uid, false)
-	bs := []binding{c08Bindings[1], c08Bindings[3]} // st_inv (has an index rule on dur to order by), m_none
+	bs := []binding{c08Bindings[1], c08Bindings[3], c08Bindings[0]} // st_inv (has an index rule on dur to order by), m_none, st_none (criteria are evaluated after the scan)
 	setupQueryWorld(t, sv, bs, rows)
 	time.Sleep(1200 * time.Millisecond)
 	more := genDataset(r0, 120, 6, 3, base.Add(3*time.Hour), &uid, false)
@@ -138,7 +139,7 @@ func TestVerifC09(t *testing.T) {
 	for i := 0; i < nQ; i++ {
 		r := verifh.Rand("c09q", i)
 		b := bs[r.Intn(len(bs))]
-		byTag := b.kind == "stream" && r.Intn(2) == 0
+		byTag := b.name == "st_inv" && r.Intn(2) == 0
 		asc := r.Intn(2) == 0
 		dir := modelv1.Sort_SORT_DESC
 		if asc {
@@ -197,6 +198,12 @@ func TestVerifC09(t *testing.T) {
 			kind := "time"
 			if byTag {
 				kind = "tag"
+			}
+			// a window that is merely cut short (what did come back is the start of the right window) on a stream
+			// whose criteria are evaluated after the scan: one specific defect, keyed apart from everything else
+			if b.name == "st_none" && tr != nil && strings.HasPrefix(d, "length ") && windowDiscrepancy(got, ref, asc, offset, len(got)) == "" {
+				s.Violation("c09:stream:criteria-evaluated-after-scan:window-cut-short", map[string]any{"query": desc, "discrepancy": d, "selected_rows": len(ref), "returned": len(got)})
+				continue
 			}
 			s.Violation(fmt.Sprintf("c09:%s:order-by-%s:%s", b.kind, kind, map[bool]string{true: "asc", false: "desc"}[asc]), map[string]any{"query": desc, "discrepancy": d, "selected_rows": len(ref), "returned": len(got)})
 		}
